@@ -120,6 +120,78 @@ def recover_job(job):
     return out
 
 
+def schedule_job(job):
+    """Layer (b): one gate schedule, then judge every snapshot it produced."""
+    from mc.crash import recover as RC
+    from mc.crash import sched
+
+    r = sched.run_schedule(job)
+    judged = []
+    spec = {"solver": job["solver"], "kw": job["kw"], "problem": job["problem"]}
+    for sn in r["snaps"]:
+        o = RC.judge(sn["path"], spec, set(sn["steps"]))
+        o["label"], o["listing"] = sn["label"], sn["listing"]
+        judged.append(o)
+        shutil.rmtree(sn["path"], ignore_errors=True)
+    return {"error": r["error"], "fails": r["fails"], "trace": r["trace"], "judged": judged}
+
+
+def schedules(ctx):
+    out = []
+    # saves of one solve(K) call and the iteration boundaries available before the next save forces completion
+    plans = [("pvi", 2, 2, 6, {2: (0, 1, 2), 4: (0, 1, 2)}), ("vi", 1, 1, 5, {1: (0, 1), 2: (0, 1), 3: (0, 1), 4: (0, 1)}), ("rvi", 2, 1, 4, {2: (0, 1, 2)})]
+    if not ctx.quick:
+        plans += [("vi", 3, 2, 6, {3: (0, 1, 2, 3)}), ("pvi", 2, 1, 8, {2: (0, 1, 2), 4: (0, 1, 2), 6: (0, 1, 2)}), ("rvi", 1, 2, 4, {1: (0, 1), 2: (0, 1), 3: (0, 1)})]
+    for solver, f, m, K, delays in plans:
+        keys = sorted(delays)
+        for combo in itertools.product(*[delays[k] for k in keys]):
+            out.append(dict(solver=solver, kw=SOLVER_KW[solver], problem=FOREST, f=f, m=m, K=K, schedule={str(k): v for k, v in zip(keys, combo)}))
+    return out
+
+
+def kill_job(args):
+    """Layer (c2): a traced run really SIGKILLed at a gate; replay conformance + recovery of the real tree."""
+    h, kill, kid, base = args
+    ROOT = os.path.join(base, "K%05d" % kid)
+    shutil.rmtree(ROOT, ignore_errors=True)
+    spec = dict(solver=h["solver"], kw=SOLVER_KW[h["solver"]], problem=FOREST, dir=ROOT, f=h["f"], m=h["m"])
+    spec["async"] = h["asy"]
+    log = os.path.join(base, "k%05d.log" % kid)
+    rc, err = RL.record(json.dumps(dict(spec, epoch="first", k=h["k1"], kill=kill)), log, ROOTDIR)
+    out = {"rc": rc, "kill": kill, "ROOT": ROOT, "spec": spec}
+    if rc == 0:
+        out["not_killed"] = True  # the kill point was never reached in this history
+    try:
+        ops = [o for o in RL.parse(log, ROOT) if o[1] != "mark"]
+    except RL.ParseError as e:
+        ops = None
+        out["parse_error"] = str(e)
+    os.remove(log)
+    if ops is not None:
+        out["C"] = sorted(RL.committed_steps(ops, ROOT))
+        out["n_ops"] = len(ops)
+        real = RL.tree(ROOT) if os.path.isdir(ROOT) else {}
+        dst = os.path.join(base, "Q%05d" % kid)
+        shutil.rmtree(dst, ignore_errors=True)
+        try:
+            RL.apply(ops, ROOT, dst)
+            rep = RL.tree(dst, sub=(dst.encode(), ROOT.encode())) if os.path.isdir(dst) else {}
+            out["conforms"] = real == rep
+            if real != rep:
+                out["diff"] = sorted(k for k in set(real) | set(rep) if real.get(k) != rep.get(k))[:6]
+        except Exception as e:
+            out["conforms"] = False
+            out["diff"] = ["replay raised %s: %s" % (type(e).__name__, e)]
+        shutil.rmtree(dst, ignore_errors=True)
+    return out
+
+
+def judge_killed(job):
+    from mc.crash import recover as RC
+
+    return RC.judge(job["ROOT"], job["spec"], set(job.get("C") or []), at_least=True)
+
+
 def run(ctx):
     scratch = ctx.scratch_dir()
     base = os.path.join(scratch, "c11")
@@ -163,6 +235,56 @@ def run(ctx):
                 ctx.violation("%s | %s | after %s%s" % (label.rsplit(" rec=", 1)[0], r["outcome"].split("@")[0], r["last_op"], " (torn %s)" % r["torn"] if r["torn"] else ""), "crash after operation %d of the write history: %s" % (r["k"], r["fail"]), {"history": label, "prefix": r["k"], "torn": r["torn"]})
             elif len(ctx.cov["samples"]) < 4 and r["k"] % 97 == (ctx.seed % 97):
                 ctx.sample({"history": label, "crash_after_operation": r["k"], "last_op": r["last_op"], "completed_steps": r.get("C"), "outcome": r["outcome"]})
+    # ---- layer (b): writer x solver gate schedules
+    sj = schedules(ctx)
+    for i, j in enumerate(sj):
+        j["dir"] = os.path.join(base, "D%04d" % i)
+        j["snapfmt"] = os.path.join(base, "S%02d" % (i % 100) + "%02d")
+    ctx.log("gate schedules", len(sj))
+    sres = ctx.map(schedule_job, sj)
+    distinct_listings = set()
+    for j, r in zip(sj, sres):
+        if "__error__" in r:
+            raise RuntimeError(r["__error__"] + "\n" + r["__tb__"])
+        label = "schedule %s f=%d m=%d K=%d delays=%s" % (j["solver"], j["f"], j["m"], j["K"], j["schedule"])
+        ctx.count(states=len(r["judged"]), transitions=len(r["trace"]), traces=1)
+        ctx.bump("gate_schedules_executed")
+        if r["error"]:
+            ctx.violation(label, "scheduled run raised: " + r["error"], j)
+        for f in r["fails"]:
+            ctx.violation(label + " | " + f.split(":")[0], f, j)
+        for o in r["judged"]:
+            distinct_listings.add((j["solver"], tuple(o["listing"])))
+            ctx.outcome("sched:" + o["outcome"].split("@")[0])
+            if o["fail"]:
+                ctx.violation("%s | %s | %s" % (label, o["outcome"].split("@")[0], o["label"]), "kill at '%s' (directory %s): %s" % (o["label"], o["listing"], o["fail"]), j)
+        if len(ctx.cov["samples"]) < 6 and r["trace"] and j["solver"] == "pvi" and j["schedule"] == {"2": 1, "4": 2}:
+            ctx.sample({"schedule": label, "trace": r["trace"]})
+    ctx.note("distinct_(solver,directory listing)_states_under_schedules", len(distinct_listings))
+    # ---- layer (c2): really killed traced runs
+    hk = dict(solver="vi", f=2, m=2, asy=True, k1=5)
+    kills = [dict(where="before_outer", step=2), dict(where="before_outer", step=4), dict(where="before_inner", step=4), dict(where="after_save_call", step=4),
+             dict(where="mid_delete", step=2, count=1), dict(where="mid_delete", step=2, count=3), dict(where="mid_delete", step=2, count=5)]
+    if not ctx.quick:
+        kills += [dict(where="before_outer", step=5), dict(where="before_inner", step=2), dict(where="after_save_call", step=2), dict(where="mid_delete", step=2, count=2), dict(where="mid_delete", step=2, count=4), dict(where="mid_delete", step=2, count=6)]
+    kp = ThreadPoolExecutor(8)
+    kres = list(kp.map(kill_job, [(hk, k, i, base) for i, k in enumerate(kills)]))
+    kp.shutdown()
+    jres = ctx.map(judge_killed, kres)
+    for kr, o in zip(kres, jres):
+        if "__error__" in o:
+            raise RuntimeError(o["__error__"] + "\n" + o["__tb__"])
+        label = "killed %s" % kr["kill"]
+        ctx.count(states=1, transitions=1, traces=1)
+        ctx.outcome("kill:" + ("not-reached" if kr.get("not_killed") else o["outcome"].split("@")[0]))
+        if kr.get("conforms") is True:
+            ctx.bump("killed_runs_replay_byte_identical")
+        elif kr.get("conforms") is False:
+            ctx.bump("killed_runs_replay_differs(in-flight syscall at kill time)")
+            ctx.note("kill_conformance_diff:%s" % kr["kill"], kr.get("diff"))
+        if o["fail"] and not kr.get("not_killed"):
+            ctx.violation("%s | %s" % (label, o["outcome"].split("@")[0]), "process really SIGKILLed at %s: %s" % (kr["kill"], o["fail"]), kr["kill"])
+        shutil.rmtree(kr["ROOT"], ignore_errors=True)
     ctx.note("rule", "crash states = every prefix (0..n) of every recorded write history, plus two torn variants (half, all-but-one byte) of every multi-byte write; each rebuilt at a same-length sibling path and recovered; oracle from an independent numpy trajectory")
     ctx.assume("a process kill preserves the page cache, so no unsynced-block dropping dimension; cross-thread re-orderings are not synthesised (only instants of real recordings are crash states)")
     ctx.assume("recoveries run in warm worker processes with 64-bit mode on (fresh-process precision is C09's business)")
